@@ -70,6 +70,11 @@ func isStrongNonNil(pr *Prover, v ssa.Value, b *ssa.BasicBlock) bool {
 			return len(x.Edges) > 0
 		case *ssa.ChangeInterface:
 			return isStrongNonNil(pr, x.X, b)
+		case *ssa.UnOp:
+			// a field of a local struct copied out of a table built by a composite literal
+			if pr.p.aggFieldStrongNonNil(x) {
+				return true
+			}
 		case *ssa.Parameter:
 			return pr.nnAssume[pr.key(v)]
 		case *ssa.Call:
